@@ -4,11 +4,13 @@ from ..sqlgen import *  # noqa
 from ..common import run_go, run_lean, dec_val, canon, enc_val, f2bits, load_findings
 
 MODULE = "Genql.Properties.C16"
-LEAN_TARGETS = [MODULE]
+FACTS = True
+LEAN_TARGETS = [MODULE, "Genql.Obligations.C16"]
 THEOREMS = ["Genql.C16." + t for t in [
     "quoteString_eq_passes", "quote_roundtrip", "number_single_token", "bool_null_keyword", "sanitize_spec",
     "sanitize_shape", "missing_unused_reported", "placeholder_zero_error", "sanitize_no_panic",
-    "lexer_skips_quoted_partial", "sq_segment_agrees", "echo_string", "backtick_counterexample"]]
+    "lexer_skips_quoted_partial", "sq_segment_agrees", "echo_string", "backtick_counterexample"]] + \
+    ["Genql.Obligations.C16.sanitizer_package_text"]
 TRUSTED = ["the model `scanStr` of sqlparser's scanString/scanStringSlow + SQLDecodeMap (validated through the echo oracle on the "
            "real parser)", "strconv.FormatFloat text of float arguments (supplied, not modelled)", "sqlparser grammar"]
 RULE = ("(a) SanitizeSQL vs the Lean model on templates with 0-4 placeholders in literal positions (also inside '...', \"...\", "
